@@ -157,4 +157,15 @@ theorem bullet_merge_thresholds_are_the_sources :
       | none => false) = true ∧
     Gen.mergeCircleMaxRadius = 750 := bullet_merge_thresholds_match_source
 
+/-- the signal levels the table conditions compare (which neighbour "points at" a cell strongly enough
+for an arrow head, a corner or a stub to be drawn) are those of `Signal::intensity` and of the three
+`line_*overlap` predicates now -/
+theorem signal_levels_are_the_sources :
+    ([Signal.faint, .weak, .medium, .strong].all fun s =>
+      Gen.signalIntensity.lookup s.sourceName == some s.intensity) = true ∧
+    Gen.signalIntensity.length = 4 ∧
+    Gen.overlapComparison = "signal >= required" ∧
+    Gen.overlapLevels = [("line_overlap", "Medium"), ("line_strongly_overlap", "Strong"),
+      ("line_weakly_overlap", "Weak")] := signal_levels_match_source
+
 end Svgbob.C14
